@@ -56,6 +56,7 @@ type FuncCtx struct {
 	idxSeen     map[string]bool
 	quants      []*quantAssume
 	privateRefs []privRef
+	witTuples   [][]Term
 }
 
 type Val struct {
